@@ -51,17 +51,21 @@ func (p int64Slice) Less(i, j int) bool { return p[i] < p[j] }
 func (p int64Slice) Swap(i, j int)      { p[i], p[j] = p[j], p[i] }
 
 func writeFileSynced(filename string, data []byte, perm os.FileMode) error {
+	verifStep("open", filename)
 	f, err := os.OpenFile(filename, os.O_WRONLY|os.O_CREATE|os.O_TRUNC, perm)
 	if err != nil {
 		return err
 	}
+	verifStep("write", filename)
 	n, err := f.Write(data)
 	if err == nil && n < len(data) {
 		err = io.ErrShortWrite
 	}
+	verifStep("sync", filename)
 	if err1 := f.Sync(); err == nil {
 		err = err1
 	}
+	verifStep("close", filename)
 	if err1 := f.Close(); err == nil {
 		err = err1
 	}
@@ -248,7 +252,9 @@ func (fs *fileStorage) setMeta(fd FileDesc) error {
 	content := fsGenName(fd) + "\n"
 	// Check and backup old CURRENT file.
 	currentPath := filepath.Join(fs.path, "CURRENT")
+	verifStep("stat", currentPath)
 	if _, err := os.Stat(currentPath); err == nil {
+		verifStep("read", currentPath)
 		b, err := ioutil.ReadFile(currentPath)
 		if err != nil {
 			fs.log(fmt.Sprintf("backup CURRENT: %v", err))
@@ -271,11 +277,13 @@ func (fs *fileStorage) setMeta(fd FileDesc) error {
 		return err
 	}
 	// Replace CURRENT file.
+	verifStep("rename", path)
 	if err := rename(path, currentPath); err != nil {
 		fs.log(fmt.Sprintf("rename CURRENT.%d: %v", fd.Num, err))
 		return err
 	}
 	// Sync root directory.
+	verifStep("syncdir", fs.path)
 	if err := syncDir(fs.path); err != nil {
 		fs.log(fmt.Sprintf("syncDir: %v", err))
 		return err
@@ -429,7 +437,9 @@ func (fs *fileStorage) GetMeta() (FileDesc, error) {
 			if err := fs.setMeta(curCur.fd); err == nil {
 				// Remove 'pending rename' files.
 				for _, name := range pendNames {
-					if err := os.Remove(filepath.Join(fs.path, name)); err != nil {
+					path := filepath.Join(fs.path, name)
+					verifStep("remove", path)
+					if err := os.Remove(path); err != nil {
 						fs.log(fmt.Sprintf("remove %s: %v", name, err))
 					}
 				}
